@@ -6,6 +6,10 @@
 package nmprobe
 
 import (
+	"github.com/nspcc-dev/neo-go/pkg/interop"
+	"github.com/nspcc-dev/neo-go/pkg/interop/contract"
+	"github.com/nspcc-dev/neo-go/pkg/interop/iterator"
+	"github.com/nspcc-dev/neo-go/pkg/interop/native/std"
 	"github.com/nspcc-dev/neo-go/pkg/interop/runtime"
 	"github.com/nspcc-dev/neo-go/pkg/interop/storage"
 )
@@ -15,6 +19,13 @@ const (
 	totalKey   = "total"
 	lastKey    = "last"
 	callPrefix = "c"
+
+	// talking back to Netmap during the callback
+	modeKey   = "mode"   // 0 nothing, 1 read and record, 2 re-enter newEpoch(epoch+delta), 3 call addPeerIR(info)
+	netmapKey = "netmap" // script hash of the Netmap contract
+	argKey    = "arg"    // mode 2: delta, mode 3: node info
+	insideKey = "inside" // re-entrancy guard of the probe itself
+	seenPfx   = "s"      // mode 1: what Netmap answered during the callback
 )
 
 // NewEpoch is the callback invoked by Netmap.
@@ -37,6 +48,64 @@ func NewEpoch(epoch int) {
 	storage.Put(ctx, totalKey, t+1)
 	storage.Put(ctx, lastKey, epoch)
 	runtime.Notify("ProbeEpoch", epoch)
+	talkBack(ctx, epoch)
+}
+
+// talkBack: what the probe does to Netmap while it is being called by it.
+func talkBack(ctx storage.Context, epoch int) {
+	m := storage.Get(ctx, modeKey)
+	if m == nil || m.(int) == 0 || storage.Get(ctx, insideKey) != nil {
+		return
+	}
+	nm := storage.Get(ctx, netmapKey).(interop.Hash160)
+	storage.Put(ctx, insideKey, 1)
+	switch m.(int) {
+	case 1:
+		storage.Put(ctx, seenPfx+"epoch", contract.Call(nm, "epoch", contract.ReadOnly).(int))
+		storage.Put(ctx, seenPfx+"block", contract.Call(nm, "lastEpochBlock", contract.ReadOnly).(int))
+		storage.Put(ctx, seenPfx+"netmap", std.Serialize(contract.Call(nm, "netmap", contract.ReadOnly)))
+		storage.Put(ctx, seenPfx+"snapshot0", std.Serialize(contract.Call(nm, "snapshot", contract.ReadOnly, 0)))
+		it := contract.Call(nm, "listNodes", contract.ReadOnly, epoch).(iterator.Iterator)
+		var nodes []any
+		for iterator.Next(it) {
+			nodes = append(nodes, iterator.Value(it))
+		}
+		storage.Put(ctx, seenPfx+"nodes", std.Serialize(nodes))
+		storage.Put(ctx, seenPfx+"arg", epoch)
+	case 2:
+		contract.Call(nm, "newEpoch", contract.All, epoch+storage.Get(ctx, argKey).(int))
+	case 3:
+		contract.Call(nm, "addPeerIR", contract.All, storage.Get(ctx, argKey).([]byte))
+	}
+	storage.Delete(ctx, insideKey)
+}
+
+// SetMode configures what the probe does to Netmap during its callback.
+func SetMode(mode int, netmap interop.Hash160, arg any) {
+	ctx := storage.GetContext()
+	storage.Put(ctx, modeKey, mode)
+	storage.Put(ctx, netmapKey, netmap)
+	if arg != nil {
+		storage.Put(ctx, argKey, arg)
+	}
+}
+
+// SeenInt returns an integer recorded in mode 1 ("epoch", "block", "arg"; -1 if none).
+func SeenInt(what string) int {
+	v := storage.Get(storage.GetReadOnlyContext(), seenPfx+what)
+	if v == nil {
+		return -1
+	}
+	return v.(int)
+}
+
+// Seen returns a value recorded in mode 1 ("netmap", "snapshot0", "nodes").
+func Seen(what string) any {
+	v := storage.Get(storage.GetReadOnlyContext(), seenPfx+what)
+	if v == nil {
+		return nil
+	}
+	return std.Deserialize(v.([]byte))
 }
 
 func toKey(epoch int) []byte {
